@@ -543,7 +543,7 @@ REQUIRED_ACTIONS = {
     "C12": ["CSem", "CSsem", "CClear", "GClosed", "DClean", "AWaitPoll", "DropPool"],
     "C13": ["Call", "GExit", "UDrop"],
     "C14": ["StartJob", "Lock", "Release", "Cancel", "DropWrapper"],
-    "C15": ["Get", "GetResume", "InteractCancel", "Finish", "Break", "Invalidate"],
-    "C16": ["Get", "Drop", "Prepare", "PrepareJoin", "TxPrepare", "Clear", "Remove", "Take", "TakeBusy", "TakeBoth"],
+    "C15": ["Get", "GetResume", "InteractCancel", "Finish", "Break", "Invalidate", "UnwindReturn"],
+    "C16": ["Get", "Drop", "Prepare", "PrepareG", "PrepareJoin", "TxPrepare", "Clear", "Remove", "Take", "TakeBusy", "TakeBoth"],
     "C17": ["Get", "Watch", "Take", "Return"],
 }
